@@ -14,6 +14,7 @@ import LdkModel.Proofs.MonPersister
 import LdkModel.Proofs.FsStore
 import LdkModel.Proofs.FsFault
 import LdkModel.Proofs.FsFaultEv
+import LdkModel.Proofs.FsFaultK
 import LdkModel.Proofs.MonPersisterMulti
 namespace Ldk.C19
 open Ldk Ldk.Kv Ldk.MonP Ldk.Persist Ldk.Fs
@@ -533,6 +534,55 @@ example : (runA true { st := fresh ([] : FS Nat) } exHist).st.fs = [(("n", "[emp
     (runA true { st := fresh ([] : FS Nat) } exHist).oks.map (·.version) = [2, 1] ∧
     (runA true { st := fresh ([] : FS Nat) } exHist).pend.length = 0 ∧
     (runA true { st := fresh ([] : FS Nat) } exHist).st.locks = [] := by decide
+
+/-- `faulty_history_old_or_new` (NO TORN / MIXED VALUE under failing operations; `crash_never_tears` for faults).
+    Take ANY history of `call` / `complete version kind` events, every completion with ANY fault kind
+    (`Fs.execK`): none; `cb` — the callback's rename / unlink fails without effect; `early` — write_version
+    fails BEFORE the lock (tmp create / write_all / sync_all); `dirSync` — the directory fsync AFTER the
+    rename / unlink fails, so the call returns Err although the effect IS on disk. Then at every point of
+    every history every valid key holds its initial contents or the COMPLETE result of ONE operation issued
+    on this key (its whole value for a write, nothing for a remove): a failed write leaves the old or the
+    new value, never a half-written or mixed one, and never a value nobody wrote to this key. -/
+theorem faulty_history_old_or_new {ν : Type} (ue : Bool) (fs0 : FS ν) (evs : List (KEv ν)) (k : Key) (hk : validKey k = true) :
+    (readKey ue (runK ue { st := fresh fs0 } evs).st.fs k = readKey ue fs0 k ∨
+      ∃ x ∈ (runK ue { st := fresh fs0 } evs).all, x.dest = destPath ue k ∧
+        readKey ue (runK ue { st := fresh fs0 } evs).st.fs k = x.result) ∧
+    (readKey ue fs0 k ≠ some .torn → readKey ue (runK ue { st := fresh fs0 } evs).st.fs k ≠ some .torn) := by
+  have hinit : KInv (destPath ue k) (readKey ue fs0 k) ({ st := fresh fs0 } : KSt ν) :=
+    ⟨Or.inl rfl, fun x hx => by simp at hx⟩
+  obtain ⟨h1, _⟩ := kinv_run ue (destPath ue k) (dest_not_artifact hk) (readKey ue fs0 k) evs _ hinit
+  refine ⟨h1, fun h0 => ?_⟩
+  unfold readKey at h1 h0 ⊢
+  rcases h1 with h1 | ⟨x, _, _, hx⟩
+  · rw [h1]; exact h0
+  · rw [hx]; unfold Pending.result; cases x.body <;> simp
+
+/-- non-vacuity: write 1 completes; write 2's directory fsync fails (Err, but 2 is on disk); write 3 fails
+    before the lock (nothing changes); a remove's unlink fails (nothing changes): `k` holds 2, no tmp file -/
+def exHistK : List (KEv Nat) :=
+  [.call (.write ("n", "", "k") 1), .complete 1 .none, .call (.write ("n", "", "k") 2), .complete 2 .dirSync,
+   .call (.write ("n", "", "k") 3), .complete 3 .early, .call (.remove ("n", "", "k") false), .complete 4 .cb]
+example : (runK true { st := fresh ([] : FS Nat) } exHistK).st.fs = [(("n", "[empty]", "k"), .data 2)] ∧
+    (runK true { st := fresh ([] : FS Nat) } exHistK).pend.length = 0 := by decide
+
+/-- `failed_operation_bookkeeping`. (1) A write that fails BEFORE the lock returns Err and changes NOTHING: the
+    file system is exactly as before (no tmp file left), the version counter and the version its lock entry
+    records are untouched, only its lock reference is released. (2) A body whose directory fsync fails
+    (Err with the effect on disk) never records its version — over the translated `lockedWrite` — so
+    operations issued earlier that complete later are NOT skipped: they win, as they returned Ok. -/
+theorem failed_operation_bookkeeping {ν : Type} (st : St ν) (x : Pending ν) :
+    (∀ v, x.body = .write v →
+      (execK st x .early).2 = false ∧ (execK st x .early).1.fs = st.fs ∧ (execK st x .early).1.nextVersion = st.nextVersion ∧
+      lockOf (execK st x .early).1 x.dest = ⟨(lockOf st x.dest).lastWritten, (lockOf st x.dest).refs - 1⟩) ∧
+    ((execK st x .dirSync).2 = false →
+      (Ldk.FsConsts.lockedWrite x.version (lockOf st x.dest).lastWritten (!(bodyOps st x).any isDirSync)).2 = (lockOf st x.dest).lastWritten) :=
+  ⟨fun v hb => execE_write st x v hb, fun h => execD_failed_version st x h⟩
+
+/-- non-vacuity: a dirSync-failed write from a fresh lock returns Err and the lock keeps version 0 while an older
+    operation is pending -/
+example : let t := issueAll true (fresh ([] : FS Nat)) [.write ("n", "", "k") 1, .write ("n", "", "k") 2]
+    (execK t.1 (t.2.getD 1 ⟨("", "", ""), 0, .remove true⟩) .dirSync).2 = false ∧
+    (lockOf (execK t.1 (t.2.getD 1 ⟨("", "", ""), 0, .remove true⟩) .dirSync).1 ("n", "[empty]", "k")) = ⟨0, 1⟩ := by decide
 
 /-- `faulty_model_conservative`. With no fault injected the fault model IS the model of sections 6-7: for every
     state and every list of issued operations, `execAllF` without faults ends in exactly the state of
